@@ -1,5 +1,6 @@
 """C01 - every assemble move leaves the tempered posterior invariant."""
 from . import wl_assemble
+from . import wl_cli
 from .engine_k import bootstrap
 
 ID = "C01"
@@ -20,7 +21,7 @@ FAULT_KEYS = ["adversarial_choice", "row_permute", "cache_flush", "cache_growth"
 PROBE_KEYS = ["sweep_kernels_extracted", "choice_fidelity_checked",
     "db_mutation_pairs", "db_structural_pairs", "db_exchange_pairs", "dup_state_move", "heated_move",
     "multiallelic_move", "recombination_move", "dosage_move", "zero_option_interval", "order_probe",
-    "underflow_skip", "sweeps_checked", "partitions_checked",
+    "underflow_skip", "sweeps_checked", "partitions_checked", "cli_models_checked",
 ]
 OPTIONAL_PROBES = {"quick": ("underflow_skip",), "thorough": ()}
 COMPONENTS = {
@@ -28,6 +29,7 @@ COMPONENTS = {
         "mchap.assemble.mcmc.DenovoMCMC.fit/_mcmc/_denovo_assembler", "mchap.assemble.mutation.base_step/compound_step",
         "mchap.assemble.structural.*", "mchap.assemble.tempering.*", "mchap.assemble.likelihood.*", "mchap.assemble.arraymap.*",
         "mchap.assemble.prior.*", "mchap.jitutils.* (all executed as plain Python, NUMBA_DISABLE_JIT=1)",
+        "cli flavour (3%): mchap.application.assemble.program end to end - the model it constructs vs the inputs on the command line",
     ],
     "stub": ["numpy.random.{rand,random,randint,choice,shuffle,permutation,seed} (tape)", "random_choice in mutation/structural/mcmc/jitutils (tape)",
              "cache factory (size knobs only)"],
@@ -44,10 +46,16 @@ def prepare(tier):
 
 
 def gen_config(rng, tier, index=0):
+    if rng.random() < 0.03:
+        return wl_cli.gen_assemble_config(rng, tier)
     return wl_assemble.gen_config(rng, tier, "db")
 
 
 def execute(ctx):
+    if ctx.config.get("flavor") == "cli":
+        # consequence clause at the command line: the model `mchap assemble` fits is the posterior of the inputs it was given
+        wl_cli.run_assemble_cli(ctx, lambda rec: wl_cli.check_assemble_target(ctx, rec))
+        return
     if ctx.config.get("sweep_kernel"):
         wl_assemble.check_mutation_sweep_kernel(ctx, ctx.config)
     sim = wl_assemble.AssembleSim(ctx, ctx.config, checks=("db",), probe_budget=8)
@@ -59,6 +67,8 @@ def sut_exception_is_violation(e, ctx):
 
 
 def shrink_candidates(cfg, violation):
+    if cfg.get("flavor") == "cli":
+        return wl_cli.shrink_candidates(cfg)
     return wl_assemble.shrink_candidates(cfg, violation)
 
 
